@@ -10,6 +10,10 @@ CLAIMED = {
    text="Seeded curves (five interpolation rules, float/Dual/Dual2 nodes, shuffled supply order, Rust CurveDF and the Python-facing Curve constructor) on each of which EVERY set_ad_order switch sequence over {0,1,2} up to depth 3 (quick) / 4-5 (thorough) is executed; after every switch every probed look-up and index value is compared in value, kind, variable names, gradient and Hessian with the rule's closed form evaluated in an independent reference AD under a tag state machine. The history dimension is exhaustive up to the bound per curve; curves and dates are sampled.",
    note="Trusted: reference AD + closed forms in c12.rs (independent of rateslib's layout), tolerance model, the verif-hooks re-export of the crate-private Curve. Not covered: curves with nodes of mixed number kinds (tagging of those is not stated by the property).",
    technique="deterministic simulation: exhaustive-to-depth set_ad_order histories on seeded curves vs reference model"),
+ "C16": dict(level="exploration", design="DESIGN.md §4 C16",
+   text="Twin-run crash/restart simulation: for seeded lives of every serialisable type (Dual/Dual2 with a storage-sharing partner, Cal, UnionCal, NamedCal, CurveDF x 5 rules, the Python-facing Curve with all three calendar kinds, FXRates under the C10 history alphabet, PPSpline f64/Dual/Dual2 unsolved/solved/re-solved) one twin is crashed and restarted from its durable bytes (JSON, tagged JSON, bincode) at seeded points, including right after construction, after refused operations and back-to-back; it must load, compare == to the twin that never restarted, answer the whole query suite bit-identically, re-save to the same bytes, and stay in lock-step afterwards. Contents are dominated by uniformly random finite bit patterns. Sampling, not proof.",
+   note="Trusted: the never-restarted twin as oracle (so a defect that corrupts both twins identically is invisible here), serde_json/bincode themselves. Assumes finite contents, distinct variable names, a working weekday. FX markets are compared after set_ad_order(One) on the original, rates within 64 eps before that, as the property words it.",
+   technique="deterministic simulation: seeded crash/restart from durable bytes at arbitrary life points, twin-run oracle"),
 }
 NA = {
  "C01": "pure function of (expression, point, tagging): no history, fault, clock, I/O or interleaving for a simulator to control; its chain rules run incidentally inside the C10/C12 oracles but are not claimed",
